@@ -213,7 +213,7 @@ theorem step_la (s : State) (op : Op) :
       cases op with
       | ackLargest n =>
         by_cases h : updateLargestOk s.j n = true
-        · right; exact ⟨n, by simpa [updateLargestOk] using h, by simp [step, hp, hg, h]⟩
+        · right; exact ⟨n, Nat.le_of_lt (by simpa [updateLargestOk] using h), by simp [step, hp, hg, h]⟩
         · left; simp [step, hp, hg, h]
       | _ => left; simp [step, hp, hg]
 
